@@ -90,6 +90,7 @@ func c07HardState(c *Check) {
 				}
 			}
 			c.Result(ok, "C07.R", "store raft.Term = state.GetTerm()", fnName(st.Fn), site, "term is reloaded from the persisted HardState only at start-up", "")
+			loadStateComplete(c, "C07.R")
 			continue
 		}
 		base := storeBase(fi, st)
